@@ -29,7 +29,7 @@ def vevent (start end_ : Int) (c : Comp) (tz : TVal → Int) : Except PyErr Bool
 /-- `apply_time_range_vjournal` -/
 def vjournal (start end_ : Int) (c : Comp) (tz : TVal → Int) : Except PyErr Bool :=
   match c.dtstart with
-  | none => throw (.raised "MissingProperty" "DTSTART")
+  | none => pure false
   | some ds =>
     if !(end_ > tz ds) then pure false
     else if ds.isDateTime then pure (decide (start ≤ tz ds))
